@@ -17,6 +17,8 @@ def run(rep, fb, tier):
     records.rule_regular_length(rep, fb)
     from ..rules import lints
     lints.rule_sentinel_guard(rep, fb)
+    lints.rule_parallel_build(rep, fb)
+    lints.rule_record_rebuild_length(rep, fb)
     forward.rule_same_name(rep, fb, select=lambda f: f["name"] in ("getitem_field", "getitem_fields", "getitem_next", "getitem_next_jagged", "getitem_range", "getitem_range_nowrap", "carry", "setitem_field", "field", "fields", "key", "fieldindex", "haskey", "astuple"), floor=100)
     from ..rules import pyrules_records
     pyrules_records.run(rep)
